@@ -344,6 +344,10 @@ func c03Scalars(c *engine.Ctx) {
 						return
 					}
 					got = canon.Of(it, canon.Gob)
+					// the same concrete type: an IRI list stays an IRI list, an item list an item list
+					if tw, tg := universeType(x), universeType(it); it != nil && tw != tg {
+						t.Fail(class+"|concrete-type-changed", "a %s came back as a %s", tw, tg)
+					}
 				} else {
 					z := k.zero()
 					var derr error
